@@ -146,7 +146,11 @@ auto_decoder_memconfig(void *coder_ptr, uint64_t *memusage,
 
 	lzma_ret ret;
 
-	if (coder->next.memconfig != NULL) {
+	// In SEQ_INIT the format-specific decoder hasn't been initialized
+	// yet. If this coder has been used before, coder->next still
+	// refers to the decoder of the previous file and it must not be
+	// used.
+	if (coder->sequence != SEQ_INIT && coder->next.memconfig != NULL) {
 		ret = coder->next.memconfig(coder->next.coder,
 				memusage, old_memlimit, new_memlimit);
 		assert(*old_memlimit == coder->memlimit);
